@@ -88,6 +88,10 @@ type vxConnT struct {
 	m      map[string][]byte
 	log    []vxOp
 	faults bool // when set, each operation may fail (symbolic)
+	// eviction in flight: the evictAfter-th and later Gets of evictKey find it gone
+	evictKey   string
+	evictAfter int
+	evictGets  int
 }
 
 var vxErrStore = &vxErrT{"vx: injected store fault"}
@@ -103,6 +107,12 @@ func (c *vxConnT) Get(key string) ([]byte, error) {
 	if c.fault("get") {
 		c.log = append(c.log, vxOp{"get", key, true})
 		return nil, vxErrStore
+	}
+	if c.evictKey != "" && key == c.evictKey {
+		c.evictGets++
+		if c.evictGets >= c.evictAfter {
+			delete(c.m, key)
+		}
 	}
 	v, ok := c.m[key]
 	c.log = append(c.log, vxOp{"get", key, !ok})
